@@ -179,6 +179,13 @@ def DOCS():
                                               SEL('english'), RAW('\n\\label{q}\n'), W('B')), None)
     d['optarg'] = ('en-GB', '', seq(W('A b '), lambda b: b.fl('german', W('eins zwei'), '[date]'),
                                     W(' c d.')), 2)
+    # detached flows behind a nested region that names the language already in force
+    d['nested_same_then_footnote'] = ('en-GB', '', seq(W('A b '), FL('german', seq(
+        W('eins '), FL('german', W('zwei')), W(' drei'), GRP('\\footnote{', W('Fuß note')), W(' vier'))),
+        W(' c d.')), None)
+    d['nested_same_env_then_caption'] = ('en-GB', '', seq(W('A\n'), ENV('german', seq(
+        W('\nEins '), ENV('german', W('zwei'), '*'), W(' drei'), GRP('\\caption{', W('Bild eins')),
+        W(' vier fünf\n'))), W('\nb c.')), None)
     # a region whose last token is a macro without arguments: the closing language switch
     # stands where that macro skips the following space
     d['fl_ends_unknown_macro'] = ('en-GB', '', seq(W('A b '), FL('german', seq(
